@@ -169,9 +169,13 @@ func ruleR15(c *Ctx, prop string) {
 							"tensor.New panics unless every dim >= 1 and the product of the dims equals the number of values; no rejecting gate establishes that for file-controlled dims and payload")
 					case strings.HasPrefix(q, "encoding/binary.(littleEndian).Uint"):
 						need := map[string]int64{"Uint16": 2, "Uint32": 4, "Uint64": 8}[sc.Name()]
-						have := sliceConstLen(cc.Args[len(cc.Args)-1])
+						buf := cc.Args[len(cc.Args)-1]
+						have := sliceConstLen(buf)
+						if sl, ok := buf.(*ssa.Slice); ok && have < 0 && sl.High == nil {
+							have = c.lowSlack(sl.X, sl.Low, b)
+						}
 						c.decide(have >= need, "R15", key(f, "binary."+sc.Name()), c.pos(x.Pos()),
-							fmt.Sprintf("buffer of %d bytes >= %d", have, need), fmt.Sprintf("binary.%s needs %d bytes but the buffer has %d: index out of range panic", sc.Name(), need, have))
+							fmt.Sprintf("buffer of %d bytes >= %d", have, need), fmt.Sprintf("binary.%s needs %d bytes but only %d are proven to be there (-1 = nothing is known about the buffer length): index out of range panic for some payload lengths", sc.Name(), need, have))
 					case q == "reflect.(Value).Len":
 						// Len panics unless the value is array/chan/map/slice/string: operand must be reflect.ValueOf(slice-typed value)
 						ok := false
@@ -248,8 +252,8 @@ func (c *Ctx) makeSizeSafe(m *ssa.MakeSlice) (bool, string) {
 		}
 		return false
 	}
-	if ok(m.Len) && ok(m.Cap) {
-		return true, "size is a constant or len() of an existing slice"
+	if (ok(m.Len) || nonNegExpr(m.Len, 0)) && (ok(m.Cap) || nonNegExpr(m.Cap, 0)) {
+		return true, "size is a non-negative expression over constants and len() of existing slices"
 	}
 	return false, "size " + m.Len.String()
 }
@@ -408,6 +412,11 @@ func (c *Ctx) sliceSafe(s *ssa.Slice) (bool, string) {
 			}
 		}
 	}
+	if s.High == nil && s.Max == nil && s.Low != nil {
+		if c.lowSlack(s.X, s.Low, s.Block()) >= 0 && (nonNegExpr(s.Low, 0) || startsNonNegative(s.Low)) {
+			return true, "low bound proven <= len by a dominating comparison / element-stride idiom"
+		}
+	}
 	return false, "non-constant slice bounds"
 }
 
@@ -521,4 +530,108 @@ func isRepeatedMsgSource(v ssa.Value) bool {
 	}
 	n, ok := pt.Elem().(*types.Named)
 	return ok && n.Obj().Pkg() != nil && n.Obj().Pkg().Path() == pkgOnnx
+}
+
+// nonNegExpr: v is built from len()/cap() calls and non-negative constants with +, *, and division /
+// remainder by positive constants — it cannot be negative (overflow aside: operands are slice lengths).
+func nonNegExpr(v ssa.Value, depth int) bool {
+	if depth > 6 {
+		return false
+	}
+	if k, ok := constInt(v); ok {
+		return k >= 0
+	}
+	if startsNonNegative(v) {
+		return true
+	}
+	switch x := v.(type) {
+	case *ssa.Call:
+		if b, ok := x.Common().Value.(*ssa.Builtin); ok && (b.Name() == "len" || b.Name() == "cap") {
+			return true
+		}
+	case *ssa.BinOp:
+		switch x.Op {
+		case token.ADD, token.MUL:
+			return nonNegExpr(x.X, depth+1) && nonNegExpr(x.Y, depth+1)
+		case token.QUO, token.REM:
+			k, ok := constInt(x.Y)
+			return ok && k > 0 && nonNegExpr(x.X, depth+1)
+		}
+	case *ssa.Convert:
+		return nonNegExpr(x.X, depth+1)
+	}
+	return false
+}
+
+// lowSlack returns a proven lower bound of len(x) - low for the slice expression x[low:] evaluated in
+// block b, or -1 when nothing is known. Recognised: dominating comparisons of low(+k) with len(x);
+// low = i*K with i ranging over a slice made with len(x)/K3 elements, K <= K3.
+func (c *Ctx) lowSlack(x, low ssa.Value, b *ssa.BasicBlock) int64 {
+	best := int64(-1)
+	up := func(n int64) {
+		if n > best {
+			best = n
+		}
+	}
+	if low == nil {
+		return 0
+	}
+	if k, ok := constInt(low); ok {
+		if n := sliceConstLen(x); n >= 0 && k >= 0 && k <= n {
+			up(n - k)
+		}
+	}
+	for _, g := range guardsOf(b) {
+		for _, a := range atomsOf(g) {
+			if !isLenCallOf(a.y, x) {
+				continue
+			}
+			lhs, add := a.x, int64(0)
+			if bo, ok := lhs.(*ssa.BinOp); ok && bo.Op == token.ADD {
+				if k, ok := constInt(bo.Y); ok && bo.X == low {
+					lhs, add = bo.X, k
+				} else if k, ok := constInt(bo.X); ok && bo.Y == low {
+					lhs, add = bo.Y, k
+				}
+			}
+			if lhs != low {
+				continue
+			}
+			switch a.op {
+			case token.LSS:
+				up(add + 1)
+			case token.LEQ:
+				up(add)
+			}
+		}
+	}
+	if m, ok := low.(*ssa.BinOp); ok && m.Op == token.MUL {
+		idx, kv := m.X, m.Y
+		if _, isK := constInt(idx); isK {
+			idx, kv = m.Y, m.X
+		}
+		if K, ok := constInt(kv); ok && K > 0 {
+			// idx ranges over some slice `vals` (range loop) made with len(x)/K3 elements
+			if hdr := loopHeaderOfIndex(idx); hdr != nil && hdr.Dominates(b) {
+				if iff, ok := hdr.Instrs[len(hdr.Instrs)-1].(*ssa.If); ok {
+					if bo, ok := iff.Cond.(*ssa.BinOp); ok && bo.Op == token.LSS && bo.X == idx {
+						var n ssa.Value = bo.Y
+						if lc, ok := n.(*ssa.Call); ok {
+							if bi, ok := lc.Common().Value.(*ssa.Builtin); ok && bi.Name() == "len" {
+								if mk, ok := lc.Common().Args[0].(*ssa.MakeSlice); ok {
+									n = mk.Len
+								}
+							}
+						}
+						if q, ok := n.(*ssa.BinOp); ok && q.Op == token.QUO && isLenCallOf(q.X, x) {
+							if K3, ok := constInt(q.Y); ok && K3 >= K && startsNonNegative(idx) {
+								up(K3)
+							}
+						}
+					}
+				}
+			}
+		}
+	}
+	return best
 }
